@@ -162,7 +162,7 @@ Lemma rt_step_sinv : forall st ev tr,
   rt_ev_ok ev -> rt_rel tr (rs_uid st) (rt_nodes (rs_q st)) -> rt_sinv tr st ->
   let (st', o) := rt_step st ev in rt_sinv (tr ++ o) st'.
 Proof.
-  intros st ev tr Hev R S. destruct ev as [dt|s m b cfg r| |s m|s m|s m tok|s reason|]; cbn [rt_step].
+  intros st ev tr Hev R S. destruct ev as [dt|s m b cfg r| |s m|s m|s m tok|s reason|tmo|]; cbn [rt_step].
   - rewrite app_nil_r. destruct S as (F & C & Z0). split; [exact F|split; [exact C|exact Z0]].
   - unfold rt_send. set (T := fp_calc_timeout _ _ _ _ _).
     set (n := sq_mk_node _ _ _ _ _ _ _). set (st1 := rt_mk_state _ _ _ _).
@@ -249,6 +249,23 @@ Proof.
     apply rt_sinv_no_tx.
     + destruct rm; [intros u; reflexivity|apply rt_no_tx_nacked].
     + apply rt_sinv_sub; [exact S|]. intros e I. rewrite A in I. apply filter_In in I. tauto.
+  - unfold rt_io_process, rt_fire_all.
+    pose proof (rt_fire_sinv (rt_budget (rs_q st)) st tr R S) as H1.
+    pose proof (rt_fire_rel (rt_budget (rs_q st)) st tr R) as H1r.
+    destruct (rt_fire (rt_budget (rs_q st)) st) as [st1 o1]. destruct H1r as [R1 _].
+    destruct (rt_wait st1) as [w hd]. set (et := rt_epoll_timeout w tmo).
+    set (st2 := rt_mk_state _ (rs_base st1) (rs_q st1) (rs_uid st1)).
+    assert (S2 : rt_sinv ((tr ++ o1) ++ [RoEpoll (rs_now st1) et]) st2).
+    { apply rt_sinv_no_tx; [intros u; reflexivity|]. destruct H1 as (F & C & Z0).
+      split; [exact F|split; [exact C|exact Z0]]. }
+    assert (R2 : rt_rel ((tr ++ o1) ++ [RoEpoll (rs_now st1) et]) (rs_uid st2) (rt_nodes (rs_q st2)))
+      by (apply rt_rel_neutral; [intros u; reflexivity|exact R1]).
+    pose proof (rt_fire_sinv (rt_budget (rs_q st2)) st2 _ R2 S2) as H3.
+    destruct (rt_fire (rt_budget (rs_q st2)) st2) as [st3 o3].
+    replace (tr ++ o1 ++ RoEpoll (rs_now st1) et :: o3 ++ [RoIoRet (rs_now st3) (rs_now st3 - rs_now st)])
+      with ((((tr ++ o1) ++ [RoEpoll (rs_now st1) et]) ++ o3) ++ [RoIoRet (rs_now st3) (rs_now st3 - rs_now st)])
+      by (repeat rewrite <- app_assoc; reflexivity).
+    apply rt_sinv_no_tx; [intros u; reflexivity|exact H3].
   - apply rt_sinv_no_tx; [intros u; reflexivity|exact S].
 Qed.
 
@@ -425,7 +442,7 @@ Lemma rt_step_ginv : forall st ev tr,
   rt_ev_ok ev -> rt_rel tr (rs_uid st) (rt_nodes (rs_q st)) -> rt_sinv tr st -> rt_giveups_ok tr ->
   rt_giveups_ok (tr ++ snd (rt_step st ev)).
 Proof.
-  intros st ev tr Hev R S G. destruct ev as [dt|s m b cfg r| |s m|s m|s m tok|s reason|]; cbn [rt_step].
+  intros st ev tr Hev R S G. destruct ev as [dt|s m b cfg r| |s m|s m|s m tok|s reason|tmo|]; cbn [rt_step].
   - cbn. rewrite app_nil_r. exact G.
   - unfold rt_send. cbn [snd]. apply rt_giveups_app; [exact G|]. repeat constructor.
   - unfold rt_tick, rt_fire_all.
@@ -490,6 +507,26 @@ Proof.
   - unfold rt_disconnect. destruct (sq_cancel (rt_sess_match s) (rs_q st)) as [rm q']. cbn [snd].
     apply rt_giveups_app; [exact G|]. destruct rm as [|n rm]; [repeat constructor|].
     apply rt_no_giveup_nacked. cbn in Hev. tauto.
+  - unfold rt_io_process, rt_fire_all.
+    pose proof (rt_fire_sinv (rt_budget (rs_q st)) st tr R S) as H1.
+    pose proof (rt_fire_rel (rt_budget (rs_q st)) st tr R) as H1r.
+    pose proof (rt_fire_ginv (rt_budget (rs_q st)) st tr R S G) as H1g.
+    destruct (rt_fire (rt_budget (rs_q st)) st) as [st1 o1]. destruct H1r as [R1 _]. cbn [snd] in H1g.
+    destruct (rt_wait st1) as [w hd]. set (et := rt_epoll_timeout w tmo).
+    set (st2 := rt_mk_state _ (rs_base st1) (rs_q st1) (rs_uid st1)).
+    assert (S2 : rt_sinv ((tr ++ o1) ++ [RoEpoll (rs_now st1) et]) st2).
+    { apply rt_sinv_no_tx; [intros u; reflexivity|]. destruct H1 as (F & C & Z0).
+      split; [exact F|split; [exact C|exact Z0]]. }
+    assert (R2 : rt_rel ((tr ++ o1) ++ [RoEpoll (rs_now st1) et]) (rs_uid st2) (rt_nodes (rs_q st2)))
+      by (apply rt_rel_neutral; [intros u; reflexivity|exact R1]).
+    assert (G2 : rt_giveups_ok ((tr ++ o1) ++ [RoEpoll (rs_now st1) et]))
+      by (apply rt_giveups_app; [exact H1g|repeat constructor]).
+    pose proof (rt_fire_ginv (rt_budget (rs_q st2)) st2 _ R2 S2 G2) as H3.
+    destruct (rt_fire (rt_budget (rs_q st2)) st2) as [st3 o3]. cbn [snd] in *.
+    replace (tr ++ o1 ++ RoEpoll (rs_now st1) et :: o3 ++ [RoIoRet (rs_now st3) (rs_now st3 - rs_now st)])
+      with ((((tr ++ o1) ++ [RoEpoll (rs_now st1) et]) ++ o3) ++ [RoIoRet (rs_now st3) (rs_now st3 - rs_now st)])
+      by (repeat rewrite <- app_assoc; reflexivity).
+    apply rt_giveups_app; [exact H3|repeat constructor].
   - cbn [snd]. apply rt_giveups_app; [exact G|repeat constructor].
 Qed.
 
